@@ -182,3 +182,26 @@ class Box:
     @staticmethod
     def twice(x: int) -> int:
         return (_i(x) * 2) % M
+
+
+# --- a trainable component (C14): its result depends on what it was trained on ----------------------
+
+
+@dataclass
+class LearnerConfig:
+    bias: int = 0
+
+
+class Learner(Component[int]):
+    "remembers the dataset it was trained on; untrained it behaves like a constant offset"
+
+    config: LearnerConfig
+    trained_on: str | None = None
+    n_items: int = 0
+
+    def train(self, data, options=None):
+        self.trained_on = data.name
+        self.n_items = data.item_count
+
+    def __call__(self, x: int) -> int:
+        return (_i(x) + self.config.bias + 1000 * self.n_items + _i(self.trained_on)) % M
